@@ -219,7 +219,13 @@ fn gen_text(rng: &mut Rng, tier: Tier) -> Vec<u8> {
         0 => 0,
         1 => 1,
         2 => rng.range(100, 600),
-        3 if tier == Tier::Thorough => rng.range(600, 4096),
+        3 => {
+            if tier == Tier::Thorough {
+                rng.range(600, 4096)
+            } else {
+                rng.range(1020, 2200)
+            }
+        }
         4 => *rng.pick(&[255u64, 256, 257, 1023, 1024]),
         _ => rng.range(1, 40),
     } as usize;
@@ -280,7 +286,11 @@ impl Property for C14 {
                 0..=3 => {
                     let text = gen_text(rng, tier);
                     let ram_end = rng.chance(1, 2);
-                    if rng.chance(1, 8) && !text.is_empty() && text.len() <= 0x1f && !end_used[ram_end as usize] {
+                    if rng.chance(1, 12) && !end_used[ram_end as usize] {
+                        // the argument block {fd, buffer, length} ends at the last byte of the region
+                        end_used[ram_end as usize] = true;
+                        blocks.push(Block::WriteArgAt { text, dram_end: !ram_end });
+                    } else if rng.chance(1, 8) && !text.is_empty() && text.len() <= 0x1f && !end_used[ram_end as usize] {
                         // buffer ending at the last byte of on-chip RAM or of DRAM
                         end_used[ram_end as usize] = true;
                         let end = if ram_end { 0xffff20u32 } else { 0x600000 };
@@ -295,7 +305,14 @@ impl Property for C14 {
                         _ => pool[rng.below(8) as usize] as u32,
                     };
                     let h = rng.below(nh as u64) as usize;
-                    blocks.push(Block::SetHandler { vector: v, handler: h });
+                    let ram_end = rng.chance(1, 2);
+                    if rng.chance(1, 6) && !end_used[ram_end as usize] {
+                        // the argument block {vector, address} ends at the last byte of the region
+                        end_used[ram_end as usize] = true;
+                        blocks.push(Block::SetHandlerAt { vector: v, handler: h, dram_end: !ram_end });
+                    } else {
+                        blocks.push(Block::SetHandler { vector: v, handler: h });
+                    }
                     if (1..64).contains(&v) {
                         installed.insert(v as u8, h);
                     }
@@ -363,7 +380,7 @@ impl Property for C14 {
         let mut ddr_ports: Vec<u8> = Vec::new();
         for b in &scn.guest.blocks {
             match b {
-                Block::Write { text, .. } | Block::WriteAt { text, .. } => {
+                Block::Write { text, .. } | Block::WriteAt { text, .. } | Block::WriteArgAt { text, .. } => {
                     if std::str::from_utf8(text).is_err() {
                         return Verdict::Invalid("buffer is not valid UTF-8".into());
                     }
@@ -402,7 +419,7 @@ impl Property for C14 {
                     // the vector must have a handler by the time the block is reached
                     let mut ok = g.handlers.iter().any(|h| h.vector == *v);
                     for b in scn.guest.blocks.iter().take(*block) {
-                        if let Block::SetHandler { vector, handler } = b {
+                        if let Block::SetHandler { vector, handler } | Block::SetHandlerAt { vector, handler, .. } = b {
                             if *vector == *v as u32 && *handler < g.handlers.len() {
                                 ok = true;
                             }
@@ -499,7 +516,7 @@ impl Property for C14 {
         if ends_in_error {
             bump(stats, "probe.unsupported_call_stops_with_error");
         }
-        if scn.guest.blocks.iter().any(|b| matches!(b, Block::WriteAt { .. })) {
+        if scn.guest.blocks.iter().any(|b| matches!(b, Block::WriteAt { .. } | Block::WriteArgAt { .. } | Block::SetHandlerAt { .. })) {
             bump(stats, "probe.buffer_at_region_end");
         }
         if scn.guest.blocks.iter().any(|b| matches!(b, Block::Write { text, .. } if text.is_empty())) {
